@@ -179,7 +179,16 @@ extern "C" void h_words(void) {
    World* w = new World; auto& lx = w->lx;
    Word<2> a, b; a.make(1); b.make(1); vp_not_reserved_range(a.buf[0]); vp_not_reserved_range(b.buf[0]);
    bool same = a.same(b);
-   const ipr::String& sa = lx.get_string(a.view()); const ipr::String& sb = lx.get_string(b.view());
+   // both spellings may reach the Lexicon through one reused token buffer (symbolic choice)
+   static char8_t token[2]; const bool through_token = vp_flag();
+   auto present = [&](const Word<2>& x) { if (!through_token) return x.view(); token[0] = x.buf[0]; token[1] = x.buf[1]; return util::word_view(token, x.len); };
+   const ipr::Identifier& ia = lx.get_identifier(present(a)); const ipr::Identifier& ib = lx.get_identifier(present(b));
+   vp_assert((&ia == &ib) == same && ia.string().characters() == a.view() && ib.string().characters() == b.view(), 17);
+   const ipr::Linkage& la = lx.get_linkage(present(a)); const ipr::Linkage& lb = lx.get_linkage(present(b));
+   vp_assert((&la == &lb) == same && (la == lb) == same, 18);
+   const ipr::Literal& ta = lx.get_literal(lx.int_type(), present(a)); const ipr::Literal& tb = lx.get_literal(lx.int_type(), present(b));
+   vp_assert((&ta == &tb) == same, 19);
+   const ipr::String& sa = lx.get_string(present(a)); const ipr::String& sb = lx.get_string(present(b));
    vp_assert((&sa == &sb) == same, 9);
    vp_assert((&lx.get_identifier(sa) == &lx.get_identifier(sb)) == same, 10);
    vp_assert((&lx.get_operator(sa) == &lx.get_operator(sb)) == same, 11);
